@@ -1544,6 +1544,13 @@ static size_t _GD_DoMplex(DIRFILE *restrict D, gd_entry_t *restrict E,
     return 0;
   }
 
+  /* The count field has no data here: nothing to mplex */
+  if (n_read2 == 0) {
+    free(tmpbuf);
+    dreturn("%i", 0);
+    return 0;
+  }
+
   /* Check whether we've saved the last sample */
   if (return_type == E->e->u.mplex.type && first_samp == E->e->u.mplex.sample)
     memcpy(start, E->e->u.mplex.d, size);
@@ -1597,13 +1604,15 @@ static size_t _GD_DoMplex(DIRFILE *restrict D, gd_entry_t *restrict E,
       }
 
       /* find the sample */
-      i = n_read3 - 1;
-      do {
-        if (tmpbuf2[i] == E->EN(mplex,count_val)) {
-          lb_sample = chunk_start + i;
-          break;
-        }
-      } while (i-- != 0);
+      if (n_read3 > 0) {
+        i = n_read3 - 1;
+        do {
+          if (tmpbuf2[i] == E->EN(mplex,count_val)) {
+            lb_sample = chunk_start + i;
+            break;
+          }
+        } while (i-- != 0);
+      }
       free(tmpbuf2);
     }
 
